@@ -25,7 +25,8 @@ def classifier(root, src_prefixes, dst_prefixes):
         return "OTHER"
     return classify
 
-def records(run_id, trace_path, root, src_prefixes, dst_prefixes, cfg, exit_code, protected=(), special=(), peak_base=-1, fd_slack=0):
+def records(run_id, trace_path, root, src_prefixes, dst_prefixes, cfg, exit_code, protected=(), special=(), peak_base=-1, fd_slack=0,
+            must_succeed=False, missing=0, only=None):
     """reset + events + end for one run.  Paths are made relative to the sandbox root."""
     cl = classifier(root, src_prefixes, dst_prefixes)
     root = root.rstrip("/")
@@ -41,12 +42,14 @@ def records(run_id, trace_path, root, src_prefixes, dst_prefixes, cfg, exit_code
     for e in s2e.events(trace_path, cl):
         if e["ev"] in ("exit", "read", "seek", "readdir", "fiemap"):
             continue
+        if only is not None and e["ev"] not in only:
+            continue
         d = {k: e.get(k, "") for k in FIELDS}
         d["path"] = rel(e["path"]); d["src"] = rel(e.get("src", ""))
         d["ret"] = e["ret"] if isinstance(e["ret"], int) else -99
         out.append(d)
         n += 1
-    out.append({"ev": "end", "exit": exit_code})
+    out.append({"ev": "end", "exit": exit_code, "mustSucceed": bool(must_succeed), "missing": missing})
     return out, n
 
 def judge(all_records, nruns, chunk_events=150000):
